@@ -527,6 +527,29 @@ class Retrieve:
                     # the verifier's report has to wait for these checks
                     d.addErrback(lambda f: None)
                     self._privkey_checks.append(d)
+            if self._verify:
+                # A reader that does not know the public key yet takes it
+                # from the first share it meets and rejects the share if the
+                # key does not match the cap: a share with a damaged
+                # verification key is a bad share, so the verifier looks.
+                d = reader.get_verification_key()
+                d.addCallback(self._check_verification_key, reader, reader.server)
+                d.addErrback(lambda f: None)
+                self._privkey_checks.append(d)
+
+    def _check_verification_key(self, pubkey_s, reader, server):
+        """
+        Verifier only: the share's verification key must hash to the
+        fingerprint in the cap.
+        """
+        if hashutil.ssk_pubkey_fingerprint_hash(pubkey_s) == self._node.get_fingerprint():
+            return
+        self.log("invalid verification key from %s shnum %d" %
+                 (reader, reader.shnum), level=log.WEIRD, umid="Vk3rfy")
+        self.servermap.mark_bad_share(server, reader.shnum, self.verinfo[-2])
+        e = CorruptShareError(server, reader.shnum,
+                              "pubkey doesn't match fingerprint")
+        self._bad_shares.add((server, reader.shnum, failure.Failure(e)))
 
     def _try_to_validate_prefix(self, prefix, reader):
         """
